@@ -47,30 +47,57 @@ Proof.
   - discriminate.
 Qed.
 
-Lemma seg_strs_ok h l : 0 <= h <= 32 -> 1 <= l <= h -> forall n start,
-  0 <= start -> start + Z.of_nat n <= 2 ^ l ->
-  opt_all (map (fun x => match NewPath_full (x * 2 ^ (h - l)) l h with
-                         | Some w => Some (PathStr w) | None => None end) (zrange n start))
-  = Some (map node_str (map (node_of (Z.to_nat l)) (zrange n start))).
+Lemma strs_ok h l : 0 <= h <= 32 -> 1 <= l <= h -> forall xs,
+  Forall (fun x => 0 <= x < 2 ^ l) xs ->
+  opt_all (c10w_strs h l xs) = Some (map node_str (map (node_of (Z.to_nat l)) xs)).
 Proof.
-  intros Hh Hl. induction n as [|n IH]; intros start Hs He; [reflexivity|].
-  cbn [zrange map opt_all]. rewrite seg_str by lia.
-  rewrite IH by lia. reflexivity.
+  intros Hh Hl. induction 1 as [|x xs Hx _ IH]; [reflexivity|].
+  unfold c10w_strs in *. cbn [map opt_all]. rewrite seg_str by lia. rewrite IH. reflexivity.
+Qed.
+
+Lemma zrange_bound step bound : 0 < step -> forall n x,
+  0 <= x -> x + (Z.of_nat n - 1) * step < bound -> Forall (fun y => 0 <= y < bound) (zrange n x step).
+Proof.
+  intros Hs. induction n as [|n IH]; intros x Hx Hb; [constructor|].
+  cbn [zrange]. constructor; [nia|]. apply IH; nia.
+Qed.
+
+Lemma seg_xs_bound start count stride bound : 0 <= start -> 0 <= count -> 1 <= stride -> start + count <= bound ->
+  Forall (fun y => 0 <= y < bound) (seg_xs start count stride).
+Proof.
+  intros Hs Hc Hst Hb. unfold seg_xs.
+  destruct (Z.eq_dec count 0) as [->|Hne].
+  - rewrite Z.div_small by lia. constructor.
+  - apply zrange_bound; [lia|lia|].
+    assert (0 <= (count + stride - 1) / stride) by (apply Z.div_pos; lia).
+    rewrite Z2Nat.id by lia.
+    pose proof (Z.mul_div_le (count + stride - 1) stride ltac:(lia)). nia.
 Qed.
 
 Definition seg_dom (s : Z * Z * Z * Z) : Prop :=
   match s with (h, l, start, count) =>
     0 <= h <= 32 /\ 1 <= l <= h /\ 0 <= start /\ 0 <= count /\ start + count <= 2 ^ l end.
 
-Lemma bulk_strs_ok segs : Forall seg_dom segs ->
-  opt_all (flat_map c10w_seg_strs segs) = Some (map node_str (bulk_nodes segs)).
+Lemma bulk_strs_ok segs stride : 1 <= stride -> Forall seg_dom segs ->
+  opt_all (flat_map (c10w_seg_strs stride) segs) = Some (map node_str (bulk_nodes segs stride)).
 Proof.
-  induction 1 as [|[[[h l] start] count] segs (Hh & Hl & Hs & Hc & He) _ IH]; [reflexivity|].
-  cbn [flat_map bulk_nodes]. fold (bulk_nodes segs). rewrite map_app.
+  intros Hst. induction 1 as [|[[[h l] start] count] segs (Hh & Hl & Hs & Hc & He) _ IH]; [reflexivity|].
+  cbn [flat_map bulk_nodes]. fold (bulk_nodes segs stride). rewrite map_app.
   apply opt_all_app; [|exact IH].
-  unfold c10w_seg_strs, seg_nodes. apply seg_strs_ok; try lia.
+  unfold c10w_seg_strs, seg_nodes. apply strs_ok; try lia. apply seg_xs_bound; lia.
+Qed.
+
+Lemma first_strs_ok segs K : 0 <= K -> Forall seg_dom segs ->
+  opt_all (c10w_first_strs segs K) = Some (map node_str (first_nodes segs K)).
+Proof.
+  intros HK H. destruct H as [|[[[h l] start] count] segs (Hh & Hl & Hs & Hc & He) _]; [reflexivity|].
+  unfold c10w_first_strs, first_nodes, seg_nodes. apply strs_ok; try lia. apply seg_xs_bound; lia.
 Qed.
 
 (** the bulk operation: model = specification *)
-Lemma bulk_model_spec segs K : Forall seg_dom segs -> c10w_bulk segs K = Some (bulk_spec segs K).
-Proof. intros H. unfold c10w_bulk, bulk_spec. now rewrite bulk_strs_ok. Qed.
+Lemma bulk_model_spec segs K stride : 0 <= K -> 1 <= stride -> Forall seg_dom segs ->
+  c10w_bulk segs K stride = Some (bulk_spec segs K stride).
+Proof.
+  intros HK Hst H. unfold c10w_bulk, bulk_spec.
+  now rewrite bulk_strs_ok, first_strs_ok.
+Qed.
